@@ -146,7 +146,9 @@ func (c *Ctx) addArgsSkeleton(r *Report, rule string) {
 		}
 		nAdv++
 		okV := c.term(s.Store.Val) == "slice(parseState.positional(P0), 1, _)"
-		_, req := c.Requires(aa, isInstr(s.Store), litHas(false, "call:(*Arg).isRemaining(idx(parseState.positional(P0), 0))"), nil)
+		head := "Arg.value(idx(parseState.positional(P0), 0))"
+		_, req := c.Requires(aa, isInstr(s.Store), anyLit(litHas(false, "call:(*Arg).isRemaining(idx(parseState.positional(P0), 0))"),
+			litIs("eq(23, invoke:Type.Kind(call:(reflect.Value).Type("+head+"); ))", false), litIs("eq(23, call:(reflect.Value).Kind("+head+"))", false)), nil)
 		r.Check(okV && req && c.inLoop(l, s.Store.Block()), rule, an, "queue advances by one unless the head is a remaining-arguments slice", c.ipos(s.Store), "positional = positional[1:] REQ(¬isRemaining)", fmt.Sprintf("value=%s ¬isRemaining necessary=%v", c.term(s.Store.Val), req))
 	}
 	r.Check(nAdv == 1, rule, an, "one queue advance", c.pos(aa.Pos()), "one", fmt.Sprintf("%d", nAdv))
@@ -174,7 +176,7 @@ func (c *Ctx) addArgsSkeleton(r *Report, rule string) {
 			for _, fs := range os {
 				hit := false
 				for _, f := range fs {
-					if s, ks, ok := c.kindFact(f.cond, f.pos); ok && s == subj && len(ks) == 1 && ks[0] == int64(reflect.Slice) {
+					if s, ks, ok := c.kindFact(f.cond, f.pos); ok && (s == subj || strings.HasPrefix(s, "V:Arg.value(")) && len(ks) == 1 && ks[0] == int64(reflect.Slice) {
 						hit = true
 					}
 				}
@@ -186,7 +188,7 @@ func (c *Ctx) addArgsSkeleton(r *Report, rule string) {
 			for _, fs := range os {
 				hit := false
 				for _, f := range fs {
-					if s, ks, ok := c.kindFact(f.cond, !f.pos); ok && s == subj && len(ks) == 1 && ks[0] == int64(reflect.Slice) {
+					if s, ks, ok := c.kindFact(f.cond, !f.pos); ok && (s == subj || strings.HasPrefix(s, "V:Arg.value(")) && len(ks) == 1 && ks[0] == int64(reflect.Slice) {
 						hit = true
 					}
 				}
